@@ -179,6 +179,20 @@ theorem lookupTri_isSome {γ : Type} (V : List γ) (t : Tri) :
   · rintro ⟨ha, hb, hc⟩
     simp [List.getElem?_eq_getElem ha, List.getElem?_eq_getElem hb, List.getElem?_eq_getElem hc]
 
+theorem lookupTri_eq_some {γ : Type} (V : List γ) (t : Tri) (p : γ × γ × γ) :
+    lookupTri V t = some p ↔ V[t.a]? = some p.1 ∧ V[t.b]? = some p.2.1 ∧ V[t.c]? = some p.2.2 := by
+  obtain ⟨p0, p1, p2⟩ := p
+  unfold lookupTri
+  cases ha : V[t.a]? with
+  | none => simp
+  | some _ =>
+    cases hb : V[t.b]? with
+    | none => simp
+    | some _ =>
+      cases hc : V[t.c]? with
+      | none => simp
+      | some _ => simp
+
 /-! ### vector algebra over a commutative ring -/
 
 section ring
